@@ -8,15 +8,15 @@ from .report import AnalysisError
 _cache = {}
 
 
-def elab(ctx, mod, cls, args=None, kwargs=None, overrides=None, hasattrs=None, calls=()):
+def elab(ctx, mod, cls, args=None, kwargs=None, overrides=None, hasattrs=None, calls=(), opaque=()):
     ck = (id(ctx.repo), mod, cls, repr(args), repr(sorted((kwargs or {}).items(), key=str)), repr(sorted((overrides or {}).items(), key=str)),
-          repr(sorted((hasattrs or {}).items())), repr(calls))
+          repr(sorted((hasattrs or {}).items())), repr(calls), repr(sorted(opaque)))
     if ck in _cache:
         return _cache[ck]
     if ctx.repo.module(mod) is None:
         raise AnalysisError(ctx.prop, "anchor module %s vanished" % mod)
     try:
-        d, el = elaborate(ctx.repo, mod, cls, args, kwargs, overrides, hasattrs, calls)
+        d, el = elaborate(ctx.repo, mod, cls, args, kwargs, overrides, hasattrs, calls, opaque)
     except KeyError as e:
         raise AnalysisError(ctx.prop, "anchor vanished: %s" % e)
     ctx.stat("classes_elaborated")
